@@ -27,10 +27,11 @@ TRUSTED = ["SVD contract: M = U S V^H, U^H U = I, V^H V = I, s descending >= 0",
 ASSUMPTIONS = []
 
 
-def h_single(B, cls="EOF", n=4, p=2, k=2, flags=None, weights=False, layout="2d", normalized=False, solver="full", rot=None):
+def h_single(B, cls="EOF", n=4, p=2, k=2, flags=None, weights=False, layout="2d", normalized=False, solver="full", rot=None, witness=None):
     flags = dict(flags or {})
     cplx = cls in ("ComplexEOF",)
     X, dim, fdims = M.make_input(B, layout, n, p, cplx, flags)
+    X = M.extreme_witness(X, witness)
     w = M.make_weights(B, X, fdims) if weights else None
     model = M.single(cls, n_modes=k, solver=solver, **flags)
     model.fit(X, dim, weights=w)
@@ -109,6 +110,8 @@ def configs(tier):
                     add("h_single", f"{cls}|n{n}p{p}k{k}|{keyof(fl)}|w{int(w)}", cls=cls, n=n, p=p, k=k, flags=fl, weights=w)
         add("h_single", f"{cls}|normalized", cls=cls, n=4, p=2, k=2, normalized=True)
         add("h_single", f"{cls}|randomized", cls=cls, n=4, p=3, k=2, solver="randomized")
+    for wkey, wit in (("scale 1e8", {"scale": 1e8}), ("offset 1e7", {"offset": 1e7})):
+        out.append({"key": f"EOF|n4p3k2|standardize|witness {wkey}", "fn": "h_single", "params": {"cls": "EOF", "n": 4, "p": 3, "k": 2, "flags": {"standardize": True}, "witness": wit}, "options": {"float_rtol": 1e-5}})
     for layout in ("3d-coslat", "dataset", "list", "multiindex"):
         add("h_single", f"EOF|layout={layout}", cls="EOF", n=3, p=4 if layout != "multiindex" else 2, k=2, layout=layout, flags={"use_coslat": True} if layout == "3d-coslat" else {})
     for cls in ("EOF", "ComplexEOF"):
